@@ -278,6 +278,23 @@ def main(argv):
             nalloc = vsim.parse_log(ref.log)["z"].get("allocs", 1)
             progs.append({"name": w_[0], "text": w_[1], "origin": w_[2], "opts": w_[3], "ref": ref, "nalloc": nalloc})
 
+        # second stage: the saved forms (.ao / .fm, some with debug positions) of a few programs are
+        # inputs themselves - the readers of saved forms are part of "the same sources, the same options"
+        saved = []
+        for pr in list(progs):
+            if len(saved) >= (6 if tier == "quick" else 40) or pr["ref"].rc != 0 or pr["name"] in AUX:
+                continue
+            base = pr["name"][:-3]
+            for ext in (".ao", ".fm"):
+                if base + ext in pr["ref"].files and len(saved) < (6 if tier == "quick" else 40):
+                    saved.append((base + ext, pr["ref"].files[base + ext]))
+        srefs = vsim.pmap(lambda w_: run_compile(binfo, scratch, {w_[0]: w_[1]}, ["-Q2", "-Fc", "-Flsp"], [w_[0]], {}, cpu=60), saved)
+        for (n, data), ref in zip(saved, srefs):
+            if ref.timeout or ref.rc != 0 or worlds.fault_class(ref):
+                continue
+            progs.append({"name": n, "text": data, "origin": "saved", "opts": ["-Q2", "-Fc", "-Flsp"], "ref": ref,
+                          "nalloc": vsim.parse_log(ref.log)["z"].get("allocs", 1)})
+
         cases = []
         for pi, pr in enumerate(progs):
             rng = vsim.Rng(seed, "c08-plans", pr["name"])
@@ -333,7 +350,7 @@ def main(argv):
 
         # ---- batching: several files in one invocation vs one at a time -----------
         batch_cases = []
-        okprogs = [i for i, pr in enumerate(progs) if pr["ref"].rc == 0 and pr["origin"] != "corpus-wide" and pr["name"] not in AUX]
+        okprogs = [i for i, pr in enumerate(progs) if pr["ref"].rc == 0 and pr["origin"] not in ("corpus-wide", "saved") and pr["name"] not in AUX]
         rngb = vsim.Rng(seed, "c08-batch")
         nb = 10 if tier == "quick" else 120
         bopts = ["-Q2", "-Fao", "-Ffm", "-Fc", "-Flsp"]
@@ -477,7 +494,7 @@ def main(argv):
             "distinct_nontrivial": len(distinct) + len(batch_results),
             "rule": "per program (corpus sample validated on the current tree + generated programs) one repetition of the reference plan and seeded perturbed plans over {collection schedule, heap base, stack pad, environment size and junk variables, fill pattern, clock, pid, working-directory depth, GC_* tuning}; plus batched-vs-single invocations; distinct = distinct (program, perturbation); non-trivial = at least one dimension differs from the reference",
             "samples": [{"program": progs[c[0]]["name"], "opts": progs[c[0]]["opts"], "perturbation": c[1]} for c in cases[1:done:max(1, done // 5)]][:6],
-            "programs": len(progs), "program_origins": {"corpus": ncorpus, "generated": sum(1 for p in progs if p["origin"] == "generated"), "corpus_wide_shallow": nwide_kept, "libaldor_wide_shallow": nlib_kept},
+            "programs": len(progs), "program_origins": {"corpus": ncorpus, "generated": sum(1 for p in progs if p["origin"] == "generated"), "saved_forms_as_input": sum(1 for p in progs if p["origin"] == "saved"), "corpus_wide_shallow": nwide_kept, "libaldor_wide_shallow": nlib_kept},
             "programs_rejected_with_same_diagnostics_kept": sum(1 for p in progs if p["ref"].rc != 0),
             "programs_dropped_by_reference_validation": dropped,
             "worlds_planned": len(cases), "worlds_run": done, "batch_groups": len(batch_results),
